@@ -506,6 +506,7 @@ def features(prog):
         f["has_do"] = any(c[0] in ("do", "dobrk", "docnt", "dosetv") for c in clauses)
         f["do_setv_own"] = any(c[0] == "dosetv" for c in clauses)
         f["nested_setx"] = any(has(n[3], "setx") for x in subs for n in nested_forms(x))
+        f["nested_setx_targets"] = sorted({t for x in subs for n in nested_forms(x) for t in setx_targets(n[3])})
         f["has_stmt_subform"] = any(has(x, "stm") for x in subs)
         f["unpack_final"] = final[0] in ("star", "dstar")
         f["genfn"] = bool(clauses) and (f["has_do"] or f["has_stmt_subform"] or f["unpack_final"])
